@@ -50,6 +50,7 @@ Accept(e) ==
        [] e.op \in {"cmpn", "cmp"} -> same /\ e.ret = (IF m = 0 \/ (e.op = "cmp" /\ e.blk = <<>>)
                                                         THEN LexCmp([i \in 1..na |-> 0], [i \in 1..Len(e.blk) |-> 0]) ELSE LexCmp(a, e.blk))
        [] e.op = "cmps" -> same /\ e.ret = (IF m = 0 THEN LexCmp([i \in 1..na |-> 0], [i \in 1..Len(CStr(e.blk)) |-> 0]) ELSE LexCmp(a, CStr(e.blk)))
+       [] e.op = "utf_len" -> LET w == UtfWalk(a, 1, 0) IN same /\ e.ret = w[1] /\ e.out = <<w[2]>>
        [] OTHER -> FALSE
 
 TraceInit == Init /\ l = 1
